@@ -28,9 +28,10 @@ type mcase struct {
 	// Reduced marks the members of the reduced set used for ordered pairs (thorough tier).
 	Reduced bool
 	// static applicability
-	NeedsCh     bool // needs a ledger channel with M
-	NeedsLocked int  // needs that many sub-allocations in the victim's ledger channel
-	NeedsSubs   int  // needs that many sub-channels
+	NeedsCh     bool   // needs a ledger channel with M
+	NeedsLocked int    // needs that many sub-allocations in the victim's ledger channel
+	NeedsSubs   int    // needs that many sub-channels
+	OnlyAt      string // only at history points with this prefix
 }
 
 // lockedAt / subsAt: what the history points provide.
@@ -45,6 +46,9 @@ func lockedAt(pt string) int {
 }
 
 func (c *mcase) applies(pt string) bool {
+	if c.OnlyAt != "" && !strings.HasPrefix(pt, c.OnlyAt) {
+		return false
+	}
 	switch c.Cat {
 	case "fund":
 		return strings.HasPrefix(pt, "await-subfund") && lockedAt(pt) >= c.NeedsLocked
@@ -382,13 +386,13 @@ func (sc *mScene) baseUpdate() *updSpec {
 }
 
 type updMut struct {
-	Name     string
-	Proto    bool
-	Sender   string // default "M"
-	NeedsCh  bool   // needs a ledger channel
+	Name        string
+	Proto       bool
+	Sender      string // default "M"
+	NeedsCh     bool   // needs a ledger channel
 	NeedsLocked int    // needs that many locked sub-allocations
-	Reduced  bool
-	F        func(sc *mScene, u *updSpec)
+	Reduced     bool
+	F           func(sc *mScene, u *updSpec)
 }
 
 // take moves amt from M's balance into thin air (the caller puts it somewhere else).
@@ -476,6 +480,17 @@ var updMuts = []updMut{
 func updateCases() (out []mcase) {
 	out = append(out, mcase{Name: "update/base", Cat: "update", Sender: "M", Reduced: true,
 		Build: func(sc *mScene) wire.Msg { return sc.finish(sc.baseUpdate()) }})
+	// a version-1 update of the sub-channel whose opening is still in progress at the victim (the
+	// victim caches version-1 updates of unknown channels while it opens channels)
+	out = append(out, mcase{Name: "update/opening-v1", Cat: "update", Sender: "M", Mut: true, OnlyAt: "await-subfund",
+		Build: func(sc *mScene) wire.Msg {
+			if sc.realFund == nil {
+				return nil
+			}
+			id := sc.realFund.State.Locked[len(sc.realFund.State.Locked)-1].ID
+			st := &channel.State{ID: id, Version: 1, App: channel.NoApp(), Data: channel.NoData(), Allocation: *mAlloc(sc.w.Asset, subBals[0]-1, subBals[1]+1)}
+			return sc.finish(&updSpec{St: st, Actor: 0})
+		}})
 	for _, mu := range updMuts {
 		mu := mu
 		sender := mu.Sender
@@ -517,7 +532,9 @@ func (sc *mScene) fundBase() *updSpec {
 
 func lastLocked(u *updSpec) *channel.SubAlloc { return &u.St.Locked[len(u.St.Locked)-1] }
 
-func setLedgerBals(u *updSpec, b0, b1 int64) { u.St.Balances[0][0], u.St.Balances[0][1] = mBig(b0), mBig(b1) }
+func setLedgerBals(u *updSpec, b0, b1 int64) {
+	u.St.Balances[0][0], u.St.Balances[0][1] = mBig(b0), mBig(b1)
+}
 
 var fundMuts = []autoMut{
 	// the victim is index 1 and owes 4, M is index 0 and owes 2 (parent (10,10) before)
@@ -538,7 +555,9 @@ var fundMuts = []autoMut{
 	{Name: "sig-stranger", F: func(_ *mScene, u *updSpec, _ *channel.SubAlloc) { u.SigBy = "S" }},
 	{Name: "sig-garbage", F: func(_ *mScene, u *updSpec, _ *channel.SubAlloc) { u.SigBy = "garbage" }},
 	{Name: "ver-plus2", F: func(_ *mScene, u *updSpec, _ *channel.SubAlloc) { u.St.Version++ }},
-	{Name: "sum-plus1", F: func(_ *mScene, u *updSpec, _ *channel.SubAlloc) { u.St.Balances[0][0].Add(u.St.Balances[0][0], mBig(1)) }},
+	{Name: "sum-plus1", F: func(_ *mScene, u *updSpec, _ *channel.SubAlloc) {
+		u.St.Balances[0][0].Add(u.St.Balances[0][0], mBig(1))
+	}},
 	{Name: "edit-other-id", NeedsSub: 1, F: func(_ *mScene, u *updSpec, _ *channel.SubAlloc) { u.St.Locked[0].ID = mFlipID(u.St.Locked[0].ID) }},
 	{Name: "edit-other-idxmap", NeedsSub: 1, F: func(_ *mScene, u *updSpec, _ *channel.SubAlloc) { u.St.Locked[0].IndexMap = []channel.Index{1, 0} }},
 	{Name: "edit-other-amount", NeedsSub: 1, F: func(_ *mScene, u *updSpec, _ *channel.SubAlloc) {
@@ -586,7 +605,9 @@ var settleMuts = []autoMut{
 	{Name: "credit-peer-all", F: func(_ *mScene, u *updSpec, _ *channel.SubAlloc) { mShift(u, +5) }},
 	{Name: "credit-initial-bals", F: func(_ *mScene, u *updSpec, _ *channel.SubAlloc) { mShift(u, +1) }},
 	{Name: "credit-victim-all", F: func(_ *mScene, u *updSpec, _ *channel.SubAlloc) { mShift(u, -1) }},
-	{Name: "sum-plus1", F: func(_ *mScene, u *updSpec, _ *channel.SubAlloc) { u.St.Balances[0][0].Add(u.St.Balances[0][0], mBig(1)) }},
+	{Name: "sum-plus1", F: func(_ *mScene, u *updSpec, _ *channel.SubAlloc) {
+		u.St.Balances[0][0].Add(u.St.Balances[0][0], mBig(1))
+	}},
 	{Name: "sig-stranger", F: func(_ *mScene, u *updSpec, _ *channel.SubAlloc) { u.SigBy = "S" }},
 	{Name: "ver-plus2", F: func(_ *mScene, u *updSpec, _ *channel.SubAlloc) { u.St.Version++ }},
 	{Name: "relock-elsewhere", F: func(_ *mScene, u *updSpec, _ *channel.SubAlloc) {
@@ -736,7 +757,9 @@ var vfundMuts = []vfundMut{
 		f.IndexMap = []channel.Index{f.IndexMap[0], 7}
 		vLocked(f).IndexMap = f.IndexMap
 	}},
-	{Name: "suballoc-idxmap-long", F: func(_ *mScene, f *vfundSpec) { vLocked(f).IndexMap = append(append([]channel.Index{}, f.IndexMap...), 0) }},
+	{Name: "suballoc-idxmap-long", F: func(_ *mScene, f *vfundSpec) {
+		vLocked(f).IndexMap = append(append([]channel.Index{}, f.IndexMap...), 0)
+	}},
 	{Name: "suballoc-idxmap-oor", F: func(_ *mScene, f *vfundSpec) { vLocked(f).IndexMap = []channel.Index{f.IndexMap[0], 7} }},
 	{Name: "suballoc-missing", F: func(_ *mScene, f *vfundSpec) {
 		x := vLocked(f)
@@ -757,7 +780,7 @@ var vfundMuts = []vfundMut{
 }
 
 func vfundCases() (out []mcase) {
-	out = append(out, mcase{Name: "vfund/valid-unmatched", Cat: "vfund", Sender: "M", Reduced: true, NeedsCh: true, Build: func(sc *mScene) wire.Msg {
+	out = append(out, mcase{Name: "vfund/valid-unmatched", Cat: "vfund", Sender: "M", Mut: true, Reduced: true, NeedsCh: true, Build: func(sc *mScene) wire.Msg {
 		if f := sc.vfundBase(); f != nil {
 			return sc.finishVFund(f)
 		}
@@ -859,7 +882,7 @@ var vsettleMuts = []vsettleMut{
 }
 
 func vsettleCases() (out []mcase) {
-	out = append(out, mcase{Name: "vsettle/unallocated", Cat: "vsettle", Sender: "M", Reduced: true, NeedsCh: true, Build: func(sc *mScene) wire.Msg {
+	out = append(out, mcase{Name: "vsettle/unallocated", Cat: "vsettle", Sender: "M", Mut: true, Reduced: true, NeedsCh: true, Build: func(sc *mScene) wire.Msg {
 		if f := sc.vsettleBase(); f != nil {
 			return sc.finishVSettle(f)
 		}
